@@ -213,6 +213,22 @@ fn gen_path_form(rng: &mut Rng, explicit_weight: u64) -> PathForm {
 }
 
 /// Path arguments that select exactly `paths` (relative, `dir/.../name.ext`) through `form`.
+/// A directory path spelled so that a glob matcher takes it literally (`[` → `[[]`, ...).
+fn glob_escape(dir: &str) -> String {
+    let mut out = String::new();
+    for c in dir.chars() {
+        match c {
+            '[' | ']' | '*' | '?' => {
+                out.push('[');
+                out.push(c);
+                out.push(']');
+            }
+            c => out.push(c),
+        }
+    }
+    out
+}
+
 fn path_args_for(rng: &mut Rng, form: PathForm, paths: &[String]) -> Vec<String> {
     let mut dirs: Vec<String> = vec![];
     for p in paths {
@@ -245,21 +261,21 @@ fn path_args_for(rng: &mut Rng, form: PathForm, paths: &[String]) -> Vec<String>
             if rng.chance(1, 3) {
                 let mut uniq = vec![];
                 for t in dirs.iter().map(top) {
-                    let pat = format!("{t}/**/*.pas");
+                    let pat = format!("{}/**/*.pas", glob_escape(&t));
                     if !uniq.contains(&pat) {
                         uniq.push(pat);
                     }
                 }
                 uniq
             } else {
-                dirs.iter().map(|d| format!("{d}/*.pas")).collect()
+                dirs.iter().map(|d| format!("{}/*.pas", glob_escape(d))).collect()
             }
         }
         PathForm::FilesFrom => match rng.below(3) {
             0 => paths.to_vec(),
             1 => dirs,
             // (every file of a scenario is a source file, whatever its extension)
-            _ => dirs.iter().map(|d| format!("{d}/*")).collect(),
+            _ => dirs.iter().map(|d| format!("{}/*", glob_escape(d))).collect(),
         },
     }
 }
